@@ -17,11 +17,14 @@
    the tie of finalize()'s length field to the code (white-box op `setcount` of the harness; not a clause of the
    property, but what that correspondence means for EVERY counter value and every internal state):
         finalize_from_any_state, finalize_after_set_count, update_finalize_from_any_state
+   independent hashers (one per thread, nothing shared; harness op `threads`): under ANY interleaving of the operations
+   of n hashers every hasher shows the spec's observations for its own operations
+        independent_hashers_refine_spec
    The only side conditions are: bytes are in 0..255 (wf_bytes) and whatever is finalized is shorter
    than max_len = 2^61 bytes (op_ok / ops_ok); Inv p m reads "hasher p has absorbed message m". *)
 From Coq Require Import ZArith List.
 From Common Require Import Words ListAux.
-From Sha Require Import Gen_Sha ShaSpec ShaModel ShaProofs ShaRound ShaCompress ShaStream ShaFinal ShaAnyState ShaHmac.
+From Sha Require Import Gen_Sha ShaSpec ShaModel ShaProofs ShaRound ShaCompress ShaStream ShaFinal ShaAnyState ShaHmac ShaThreads.
 Import ListNotations.
 Local Open Scope Z_scope.
 
@@ -85,6 +88,14 @@ Theorem reachable_states_invariant : forall ops, ops_ok [] ops ->
   Inv (fold_left (fun p o => fst (step p o)) ops init) (fold_left (fun m o => fst (spec_step m o)) ops []).
 Proof. exact (fun ops => run_inv ops init [] init_inv). Qed.
 Print Assumptions reachable_states_invariant.
+
+(* n hashers, each started fresh, driven by an arbitrary schedule (list of (hasher index, operation) - any interleaving
+   of what the n owners do): the observations of hasher i are those of the spec for hasher i's own operations, whatever
+   the others do in between.  `mine i` selects hasher i's entries of a schedule / of a trace. *)
+Theorem independent_hashers_refine_spec : forall n sched i, (i < n)%nat -> ops_ok [] (mine i sched) ->
+  mine i (sys_run (repeat init n) sched) = spec_run [] (mine i sched).
+Proof. exact independent_hashers. Qed.
+Print Assumptions independent_hashers_refine_spec.
 
 (* finalize from ANY internal state (8 state words, any 64-bit counter value c, any 64-byte buffer): the digest is the
    compression chain, from the given state, over the first c mod 64 buffer bytes + 0x80 + the FIPS 5.1.1 zero fill + the
@@ -258,4 +269,18 @@ Example ex_history :
 Proof.
   cbv zeta. split; [ | vm_compute; reflexivity ].
   cbn [ops_ok op_ok spec_step fst]. repeat split; vm_compute; reflexivity.
+Qed.
+
+(* three hashers interleaved: 0 hashes "abc" in two pieces, 1 hashes 70 bytes across a block boundary, 2 calls hmac; every
+   one sees its own result (first three bytes shown), in the order of the schedule *)
+Example ex_interleaved :
+  let sched := [(0%nat, OUpdate [97]); (1%nat, OUpdate (repeat 0 56)); (2%nat, OHmac [74; 101; 102; 101] [1]); (0%nat, OUpdate [98; 99]);
+                (1%nat, OUpdate (repeat 255 9)); (0%nat, OFinalize); (7%nat, OFinalize); (1%nat, OFinalize); (0%nat, OFinalize)] in
+  ops_ok [] (mine 0%nat sched) /\ ops_ok [] (mine 1%nat sched) /\ ops_ok [] (mine 2%nat sched)
+  /\ map (fun e => (fst e, match snd e with Some d => firstn 3 d | None => [] end)) (sys_run (repeat init 3%nat) sched)
+     = [(0%nat, []); (1%nat, []); (2%nat, [20; 187; 31]); (0%nat, []); (1%nat, []); (0%nat, [186; 120; 22]); (7%nat, []); (1%nat, [79; 232; 72]);
+        (0%nat, [227; 176; 196])].
+Proof.
+  cbv zeta. split; [ | split; [ | split ] ]; [ | | | vm_compute; reflexivity ];
+    cbn [mine filter map fst snd Nat.eqb ops_ok op_ok spec_step]; repeat split; vm_compute; reflexivity.
 Qed.
